@@ -93,8 +93,11 @@ def run(ck: Check) -> int:
         ib = [W.EXTMATCH, W.DOTMATCH, W.IGNORECASE, W.NEGATE, W.SPLIT, W.BRACE, W.PATHNAME, W.GLOBSTAR, W.NODOTDIR, W.MATCHBASE]
         for s in (strings if not quick else strings[::3]) + rnd[:3000]:
             cases.append((W.escape(s, unix=True, pathname=False), streams.reachable(gen.random_flags(R, ib, 0.35, W.FORCEUNIX)), False))
+        for pth in gen.win_drive_patterns(3 if quick else 4):
+            cases.append((W.escape(pth, unix=False), W.FORCEWIN | W.PATHNAME, False))
+            cases.append((pth, W.FORCEWIN | W.PATHNAME | W.EXTMATCH, False))
         streams.k1(sr, drv, cases)
-        sr.note = 'K1 regex text of escaped strings under random flags'
+        sr.note = 'K1 regex text of escaped strings under random flags; every drive/UNC/device shape (<= 3/4 components), raw and escaped(unix=False), under FORCEWIN'
     ck.stream('K1-escaped-text', s_k1)
 
     def s_search(sr):
@@ -166,6 +169,31 @@ def run(ck: Check) -> int:
                         ck.report(Failing(f'non-magic {s!r} matches {x!r}', {'api': 'fnmatch', 's': s, 'other': x, 'flags': fl2}, False, True), None)
             if len(sr.samples) < 3 and len(s) > 3:
                 sr.samples.append({'s': s, 'fnmatch.escape': pat, 'path': path, 'glob.escape': gpat, 'flags': hex(gfl)})
+        # ---- every drive / UNC / device shape with magic characters in its components (Windows rules)
+        shapes = list(gen.win_drive_patterns(3 if quick else 4))
+        for pth in shapes:
+            if not pth:
+                continue
+            full = pth + ('/' if not pth.endswith('/') else '') + 'file'
+            gp = G.escape(full, unix=False)
+            sr.evaluations += 1
+            try:
+                with common.time_limit(5):
+                    if not G.globmatch(full, gp, flags=G.FORCEWIN):
+                        ck.report(Failing(f'globmatch({full!r}, escape(unix=False)={gp!r}, FORCEWIN) is False',
+                                          {'api': 'globmatch', 's': full, 'pattern': gp, 'flags': G.FORCEWIN}, True, False), None)
+                    for x in neighbours(R, full, 8) + [full.replace('*', 'Z'), full.replace('[b]', 'b'), full.replace('?', 'q'), full.replace('!', 'x')]:
+                        if x != full and G.globmatch(x, gp, flags=G.FORCEWIN) and not equiv(full, x, True, True, True):
+                            # KF-D28: device prefix that the parser does not recognise as a drive
+                            norm = full.replace('\\', '/')
+                            kid = 'KF-D28' if (norm[:4] in ('//?/', '//./') and W._get_win_drive(gp, True, False)[1] is None) else None
+                            ck.report(Failing(f'glob.escape({full!r}, unix=False) also matches {x!r}',
+                                              {'api': 'globmatch', 's': full, 'pattern': gp, 'other': x, 'flags': G.FORCEWIN}, False, True), kid)
+                            sr.histogram[kid or 'win-extra-match'] = sr.histogram.get(kid or 'win-extra-match', 0) + 1
+                    if G.is_magic(gp, flags=G.FORCEWIN) is False and any(ch in full for ch in '*?[') and False:
+                        pass
+            except common.CallTimeout:
+                continue
         sr.note = ('self-match and one-edit neighbours of s against escape(s): fnmatch on names, glob on paths (Unix and Windows rules, '
                    'drive/UNC prefixes), non-magic patterns; equivalences allowed: case folding, separator spelling, duplicate/trailing separators')
     ck.search('escape-is-literal-api', s_search)
